@@ -120,3 +120,23 @@ Fixpoint evs_match (evs : list ev) (reps : list reply) : bool :=
   | e :: evs', rp :: reps' => ev_matches e rp && evs_match evs' reps'
   | _, _ => false
   end.
+
+(** ---- delivered octets ----
+    What the store of one recipient holds against what was submitted to that
+    recipient: one stored message per submitted body, in order; the stored
+    size is the size of the whole body [b] (the message as submitted, before
+    dot-stuffing) and the stored text of a single-part message is exactly the
+    octets after the header (after the first empty line). *)
+Definition is_empty_line (l : str) : bool := str_eqb l crlf || str_eqb l [LF].
+Fixpoint after_header (b : list str) : list str :=
+  match b with
+  | [] => []
+  | l :: b' => if is_empty_line l then b' else after_header b'
+  end.
+Fixpoint delivered_ok (expected : list (list str)) (observed : list (Z * str)) : bool :=
+  match expected, observed with
+  | [], [] => true
+  | b :: e', (size, text) :: o' =>
+      Z.eqb size (len (concat b)) && str_eqb text (concat (after_header b)) && delivered_ok e' o'
+  | _, _ => false
+  end.
